@@ -16,6 +16,8 @@
                         source unsubscribed and torn down exactly once; later faults change nothing.
    * `error_return`     the same for `return …, err` of an error-aware callback (`MapErr`): Error(err)
                         unwrapped, with the context the callback returned.
+   * `subscribe_fn_panic` a panic of the source's subscribe function after j notifications = those j
+                        notifications, then Error(subscriberCtx, observable(p)), then Unsubscribe().
    * `fault_not_reached` a plan that is never reached changes nothing.
    * `grammar_partial`  EVERY plan in which the final observer's next callback does not panic (all
                         other positions may, teardown included): values, at most one terminal, nothing after.
@@ -65,6 +67,7 @@
 import RoProofs.Fault.Next
 import RoProofs.Fault.Kernel
 import RoProofs.Fault.Grammar
+import RoProofs.Fault.SubscribeFn
 import RoProofs.Ops.Basic
 import RoGen.Catalogue
 import RoGen.FaultFacts
@@ -122,6 +125,22 @@ theorem grammar_partial (fm : FMachine σ α β) (P : Plan) (hN : ∀ k, panicAt
     (sub : Ctx) (raw : List (Notif α)) (fu : Notif α) :
     Grammar (runScript fm P mode sub raw).1.trace ∧ Grammar (Fault.run fm P mode sub raw fu).fin.trace :=
   grammar_unless_final_next_panics P hN fm mode sub raw fu
+
+/-- the subscribe function of the source panics with `p` right before its `j`-th notification
+    (any machine, any plan otherwise): the first `j` notifications are delivered, then
+    `Error(subscriberCtx, observable(p))` goes to the same subscriber, then `Unsubscribe()` — so
+    the failure enters the pipeline as an ordinary upstream error and everything proved about
+    upstream errors applies to it -/
+theorem subscribe_fn_panic (fm : FMachine σ α β) (P : Plan) (j : Nat) (f : Fault.Fault) (p : Err)
+    (hss : P.srcSub = some (j, f)) (hp : f.recovered = some p) (sub : Ctx) (raw : List (Notif α)) (s : St σ α β) :
+    srcSubscribe fm P sub raw s =
+      match thenPanics p (feedAll fm P { s with subs := s.subs + 1 } (raw.take j)) with
+      | (s1, some q) =>
+        (match uFeed fm P s1 (.error sub (.observable q)) with
+         | (s2, some x) => (s2, some x)
+         | (s2, none) => opTeardown P s2)
+      | (s1, none) => (s1, none) :=
+  srcSubscribe_panics fm P j f p hss hp sub raw s
 
 /-- any plan over the Next-position callback: the run is `runOp` of the injected machine -/
 theorem agree (fm : FMachine σ α β) (cbN : Nat → Option Fault.Fault) (mode : SrcMode) (sub : Ctx)
@@ -401,6 +420,7 @@ end Ro.C07
 #print axioms Ro.C07.fault_not_reached
 #print axioms Ro.C07.error_return
 #print axioms Ro.C07.grammar_partial
+#print axioms Ro.C07.subscribe_fn_panic
 #print axioms Ro.C07.agree
 #print axioms Ro.C07.grammar_next_plans
 #print axioms Ro.C07.never_escapes
